@@ -1,6 +1,6 @@
 (* C13 - Well-formed docstrings parse back to the structure that was written.  Statements only. *)
 From Coq Require Import List Ascii String Bool Arith.
-From Verif Require Import Model.C13_strings Model.C13_google Model.C13_google_spec Proofs.C13_strings Proofs.C13_google.
+From Verif Require Import Model.C13_strings Model.C13_google Model.C13_google_spec Model.C13_sphinx Proofs.C13_strings Proofs.C13_google Proofs.C13_sphinx.
 Import ListNotations.
 Open Scope list_scope.
 Open Scope nat_scope.
@@ -83,3 +83,27 @@ Print Assumptions C13_google_roundtrip_refuted_F2.
 Theorem C13_wf_satisfiable : wf_secs sample_ctx sample_doc = true.
 Proof. exact sample_wf. Qed.
 Print Assumptions C13_wf_satisfiable.
+
+(* Sphinx style, partial: for every free text followed by a field list of :param: (optional inline type), :var:, :raises: and
+   :returns: fields (every field-name alias, any order, multi-line descriptions, distinct parameter / attribute names)
+   parsing gives back the text and the items, grouped in Sphinx's fixed order text / parameters / attributes / returns /
+   raises, written order kept inside each group, descriptions joined with single blanks, omitted annotations and
+   defaults taken from the parent.  Missing for the full statement: separate :type: / :vartype: / :rtype: fields
+   (finding C13-F8 shows the order dependence there), repeated names, blank lines inside descriptions. *)
+Theorem C13_sphinx_roundtrip_partial : forall c ra text fields, wf_sphinx text fields = true ->
+  parse_sphinx c ra (render_sphinx text fields) = expect_sphinx c ra text fields.
+Proof. exact sphinx_roundtrip_partial. Qed.
+Print Assumptions C13_sphinx_roundtrip_partial.
+
+(* Finding C13-F8 in the model: `:type a: str` after `:param a:` loses against the signature's `int`; before it, it wins. *)
+Theorem C13_sphinx_type_order_refuted_F8 :
+  parse_sphinx f8_ctx true f8_lines =
+    [GText (s_of "Summary."); GItems KParams None [mkItem (Some (s_of "a")) (Some (s_of "int")) (s_of "The a.") None]] /\
+  parse_sphinx f8_ctx true f8_lines_swapped =
+    [GText (s_of "Summary."); GItems KParams None [mkItem (Some (s_of "a")) (Some (s_of "str")) (s_of "The a.") None]].
+Proof. exact sphinx_type_after_param_F8. Qed.
+Print Assumptions C13_sphinx_type_order_refuted_F8.
+
+Theorem C13_sphinx_wf_satisfiable : wf_sphinx sphinx_sample_text sphinx_sample = true.
+Proof. exact sphinx_sample_wf. Qed.
+Print Assumptions C13_sphinx_wf_satisfiable.
